@@ -1,11 +1,15 @@
 package ops
 
 import (
+	"bufio"
 	"context"
 	"errors"
+	"fmt"
 	"io"
+	"io/fs"
 	"runtime"
 	"sync"
+	"sync/atomic"
 	"time"
 )
 
@@ -22,7 +26,7 @@ type injectedErr struct {
 	wrap error
 }
 
-func (e *injectedErr) Error() string { return e.base.Error() + ": " + e.wrap.Error() }
+func (e *injectedErr) Error() string   { return e.base.Error() + ": " + e.wrap.Error() }
 func (e *injectedErr) Unwrap() []error { return []error{e.base, e.wrap} }
 
 var wrapKinds = []error{nil, context.Canceled, context.DeadlineExceeded, io.ErrUnexpectedEOF, io.ErrClosedPipe, io.EOF}
@@ -100,6 +104,85 @@ func (r *faultReader) Read(p []byte) (int, error) {
 	}
 	return n, nil
 }
+
+// faultReaderWT is a faultReader that also implements io.WriterTo (like *bufio.Reader or *os.File): WriteTo delivers what
+// Read would deliver and reports the same failure.
+type faultReaderWT struct{ *faultReader }
+
+func (r faultReaderWT) WriteTo(w io.Writer) (int64, error) {
+	var total int64
+	buf := make([]byte, 512)
+	for {
+		n, err := r.faultReader.Read(buf)
+		if n > 0 {
+			m, werr := w.Write(buf[:n])
+			total += int64(m)
+			if werr != nil {
+				return total, werr
+			}
+		}
+		if err == io.EOF {
+			return total, nil
+		}
+		if err != nil {
+			return total, err
+		}
+	}
+}
+
+// CallbackErr returns the error value a failing callback hands back: the harness' own sentinel or one of the standard
+// library's well-known values (which the library might use for its own purposes). The walk must return it unchanged.
+func CallbackErr(kind int) error {
+	switch kind {
+	case 1:
+		return fs.SkipAll
+	case 2:
+		return fs.SkipDir
+	case 3:
+		return io.EOF
+	case 4:
+		return context.Canceled
+	case 5:
+		return bufio.ErrTooLong
+	case 6:
+		return errWrappedTooLong
+	case 7:
+		return io.ErrUnexpectedEOF
+	}
+	return ErrCallback
+}
+
+var errWrappedTooLong = fmt.Errorf("callback: %w", bufio.ErrTooLong)
+
+// faultReaderCloser also implements io.Closer and notices a Close that arrives while a Read is pending.
+type faultReaderCloser struct {
+	*faultReader
+	inRead   atomic.Int32
+	badClose atomic.Bool
+}
+
+func (r *faultReaderCloser) Read(p []byte) (int, error) {
+	r.inRead.Add(1)
+	defer r.inRead.Add(-1)
+	n, err := r.faultReader.Read(p)
+	if r.faultReader.cancel == nil && r.faultReader.cancelAt >= 0 {
+		// the context was cancelled inside this Read: give a hook on cancellation time to run while we are still in Read
+		time.Sleep(200 * time.Microsecond)
+	}
+	return n, err
+}
+
+func (r *faultReaderCloser) Close() error {
+	if r.inRead.Load() > 0 {
+		r.badClose.Store(true)
+	}
+	return nil
+}
+
+// recStringWriter is a recWriter that also implements io.StringWriter (like *os.File); every call counts as a write.
+type recStringWriter struct{ *recWriter }
+
+func (w recStringWriter) WriteString(s string) (int, error) { return w.recWriter.Write([]byte(s)) }
 
 // recWriter records the bytes it accepts and fails from write index FailAt on.
 type recWriter struct {
